@@ -220,15 +220,24 @@ class BuildDirs:
         acquires ``_lock`` first.
         """
         parent = norm_cased_dir
+
+        # A directory in _error_created_dirs is one we created during this
+        # build and then virtually removed. It remains in the real file system
+        # until the end of the build. If we get here for such a directory, then
+        # the caller saw it in the real file system after another thread
+        # virtually removed it. It is not an externally created directory, so
+        # it must stay removed.
         while (parent not in self._exists_dirs and
-                parent not in self._build_dir_counts):
+                parent not in self._build_dir_counts and
+                parent not in self._error_created_dirs):
             self._removed_dirs.discard(parent)
             self._maybe_removed_dirs.discard(parent)
             self._removed_files.discard(parent)
             self._exists_dirs.add(parent)
             parent = os.path.dirname(parent)
 
-        while parent not in self._exists_dirs:
+        while (parent not in self._exists_dirs and
+                parent not in self._error_created_dirs):
             self._exists_dirs.add(parent)
             parent = os.path.dirname(parent)
 
